@@ -1223,7 +1223,7 @@ func (p *Printer) command(cmd Command, redirs []*Redirect) (startRedirs int) {
 			// to avoid the ambiguity between `((` and `( (`.
 			// Nor is it needed if the statements are to start on a new line, as with `( (foo)\n)`.
 			if (cmd.Lparen.Line() != stmts[0].Pos().Line() || len(stmts) > 1 ||
-				stmtsEnd(stmts, cmd.Last).Line() < cmd.Rparen.Line()) && !p.singleLine {
+				(stmtsEnd(stmts, cmd.Last).Line() < cmd.Rparen.Line() && !p.firstLine)) && !p.singleLine {
 				p.wantSpace = spaceNotRequired
 
 				if p.minify {
